@@ -31,16 +31,29 @@ values, negative durations, keys that override the statement's rules
 
 Specs are plain json-able data:
   value    := number | {'rest': number}
+            | {'fn': 'item' | 'call', 'key': name, 'mul': a, 'add': b}
+              (fault histories: a function of the event, e[name] * a + b or
+               e(name) * a + b; raises KeyError while `name` is not defined)
+            | {'bad': kind ...}   (fault histories: a value play() fails on -
+               a raising function, an object the encoder refuses ...; never
+               part of an expectation)
   scale    := None | {'degrees': [...], 'tuning': None | [...], 'ratio': float,
                       'kind': str}
   event    := {key: value, 'scale': scale}
   valspec  := value | ['seq', [valspec...], repeats, offset]
                     | ['ser', [valspec...], n, offset]
                     | ['series', start, step, n]
+                    | ['key', name, length | None, mul, add]   (Pbind columns
+                      only: Pkey(name, length) * mul + add - the value the
+                      same Pbind gave key `name` in this row; the column ends
+                      after `length` rows or when the row has no such key)
   pattern  := ['pbind', {key: valspec}]
             | ['pmono', instrument, {key: valspec}]
             | ['pmono_artic', instrument, {key: valspec}]
             | ['ppar', [pattern...]] | ['pchain', pbind, pattern]
+            | ['pchain', pbind, pattern, how]   (how the Pchain object is
+              built: 'ctor' | 'chain' | 'flat' | 'flat-chain', same meaning)
+            | ['pevent', {key: value}, pattern, 'dict' | 'event']
             | ['pdur', dur, pattern] | ['pdelta', time, pattern]
             | ['pseq', [pattern...]] | ['pn', n, pattern]
             | ['use', name]      (the same pattern object, defined in the
@@ -73,6 +86,47 @@ def dbamp(db):
 
 def is_rest_value(v):
     return isinstance(v, dict) and 'rest' in v
+
+
+def is_fn_value(v):
+    return isinstance(v, dict) and 'fn' in v
+
+
+def is_bad_value(v):
+    return isinstance(v, dict) and 'bad' in v
+
+
+def broken_keys(ev):
+    """Keys of an event spec whose value makes play() fail (fault histories):
+    bad values, and function values whose source key is not a number of the
+    event."""
+    out = []
+    for k, v in ev.items():
+        if is_bad_value(v):
+            out.append(k)
+        elif is_fn_value(v):
+            src = ev.get(v['key'])
+            if isinstance(src, bool) or not isinstance(src, (int, float)):
+                out.append(k)
+    return out
+
+
+def effective(ev):
+    """The event spec with function values replaced by what they return
+    (Event help: a function as the value of a key is called with the event).
+    Only for specs without broken keys."""
+    if not any(isinstance(v, dict) and ('fn' in v or 'bad' in v)
+               for k, v in ev.items() if k != 'scale'):
+        return ev
+    out = {}
+    for k, v in ev.items():
+        if is_fn_value(v):
+            out[k] = ev[v['key']] * v['mul'] + v['add']
+        elif is_bad_value(v):
+            raise ValueError(f'no expectation for a broken event: {k}')
+        else:
+            out[k] = v
+    return out
 
 
 INF = float('inf')
@@ -290,10 +344,11 @@ def _embed(item):
 
 class Ev:
     """One event of a stream: explicit keys, kind and (for mono) node slot."""
-    __slots__ = ('keys', 'kind', 'mono', 'delta')
+    __slots__ = ('keys', 'kind', 'mono', 'delta', 'based')
 
-    def __init__(self, keys, kind='note', mono=None, delta=None):
+    def __init__(self, keys, kind='note', mono=None, delta=None, based=False):
         self.keys, self.kind, self.mono = keys, kind, mono
+        self.based = based      # its input event came from a Pevent
         self.delta = resolve(keys).delta if delta is None else delta
 
     @property
@@ -328,16 +383,41 @@ def delta_is_int(keys):
         and isint(keys['stretch'])
 
 
+def _is_key_column(v):
+    return isinstance(v, (list, tuple)) and len(v) > 0 and v[0] == 'key'
+
+
 def _bind_events(mapping):
-    cols = {k: values(v) for k, v in mapping.items()}
+    """Rows of a Pbind.  Columns are asked in the order of the mapping (Pbind
+    help: 'the keys are processed in order, so that a later key can use the
+    value of an earlier one' - Pkey); the first column that ends ends the
+    pattern."""
+    cols = {k: (None if _is_key_column(v) else values(v))
+            for k, v in mapping.items()}
     finite = [len(v) for v in cols.values() if v is not None]
+    keycols = {k: v for k, v in mapping.items() if _is_key_column(v)}
+    finite += [v[2] for v in keycols.values() if v[2] is not None]
     if not finite:
         raise ValueError('endless Pbind')
     n = min(finite)
     out = []
     for i in range(n):
-        out.append({k: (mapping[k] if v is None else v[i])
-                    for k, v in cols.items()})
+        row = {}
+        for k, v in cols.items():
+            if k in keycols:
+                _, name, _length, mul, add = keycols[k]
+                if name not in row:
+                    return out      # Pkey of a key the row does not have: ends
+                src = row[name]
+                if mul == 1 and add == 0:
+                    row[k] = src    # the value itself (a Rest stays a Rest)
+                elif is_rest_value(src):
+                    row[k] = {'rest': src['rest'] * mul + add}
+                else:
+                    row[k] = src * mul + add
+            else:
+                row[k] = mapping[k] if v is None else v[i]
+        out.append(row)
     return out
 
 
@@ -439,7 +519,8 @@ def timeline(p):
                 #                                 the 'clipped-delta-was-int' flag
             keys['delta'] = ({'rest': remaining}
                              if delta_is_rest(e.keys) else remaining)
-            items[-1] = (t, Ev(keys, e.kind, e.mono, delta=remaining))
+            items[-1] = (t, Ev(keys, e.kind, e.mono, delta=remaining,
+                                based=e.based))
         alive = {e.mono[0] for t, e in items if e.mono}
         rel = []
         for t, m, x in tl.releases:
@@ -496,9 +577,9 @@ def timeline(p):
                 keys.update({k: (a[1][k] if v is None else v[i])
                              for k, v in cols.items()})
                 if e.kind == 'silent':
-                    ne = Ev(keys, 'silent', delta=e.delta)
+                    ne = Ev(keys, 'silent', delta=e.delta, based=e.based)
                 else:
-                    ne = Ev(keys, e.kind, e.mono)
+                    ne = Ev(keys, e.kind, e.mono, based=e.based)
                 items.append((t, ne))
                 t += ne.delta
             rel = tb.releases
@@ -512,8 +593,25 @@ def timeline(p):
         for t0, e in tb.items:
             keys = dict(e.keys)
             keys.update(a[1])
-            items.append((t0, Ev(keys, e.kind, e.mono, delta=e.delta)))
+            items.append((t0, Ev(keys, e.kind, e.mono, delta=e.delta,
+                                 based=e.based)))
         return Timeline(items, tb.total, tb.releases, False, tb.flags)
+    if kind == 'pevent':
+        # Pevent(pattern, event): the pattern is asked with `event` as its
+        # input event (instead of the player's prototype): every event of the
+        # pattern has the keys of `event` below its own - unless a Pevent
+        # further down gave it another input event
+        tl = timeline(p[2])
+        items = []
+        for t0, e in tl.items:
+            if e.based:
+                items.append((t0, e))
+                continue
+            keys = dict(p[1])
+            keys.update(e.keys)
+            items.append((t0, Ev(keys, e.kind, e.mono, delta=e.delta,
+                                 based=True)))
+        return Timeline(items, tl.total, tl.releases, tl.sequential, tl.flags)
     if kind in ('pseq', 'pn'):
         # embedding in place: the parts one after the other, each one a fresh
         # embedding of its pattern (Pseq / Pn help)
@@ -541,8 +639,8 @@ def expand(p, shared):
         return p
     if kind in ('ppar', 'pseq'):
         return [kind, [expand(c, shared) for c in p[1]]]
-    if kind == 'pchain':
-        return [kind, p[1], expand(p[2], shared)]
+    if kind in ('pchain', 'pevent'):
+        return [kind, p[1], expand(p[2], shared)] + list(p[3:])
     if kind in ('pdur', 'pdelta', 'pn'):
         return [kind, p[1], expand(p[2], shared)]
     raise ValueError(p)
@@ -577,3 +675,118 @@ def _ended_before(tl, mono_id, d):
         if m == mono_id:
             return t < d
     return False
+
+
+# ---------------------------------------------------------------- player control
+
+class Controlled:
+    """What a player produces under a history of control calls: plays
+    [(absolute time, Ev, muted)], the time the stream ended (None: it did
+    not), the last wake-up / action time."""
+
+    def __init__(self):
+        self.plays, self.ended, self.last = [], None, 0.0
+        self.runs = 1           # times the stream was (re)started
+        self.effect = {}        # action name -> times it changed something
+
+
+def controlled(tl, at, actions, probe=None):
+    """Player started at `at` over timeline `tl`, then `actions`
+    [{'at': absolute time, 'do': name}] in time order:
+
+      mute / unmute   events are not played / played again; time is kept
+      pause           the player does not wake up any more (its pending
+                      wake-up is void)
+      resume / play   of a paused player: it continues NOW with its next
+                      element, later elements follow by their deltas; of a
+                      player that is not paused: nothing
+      reset           of a playing player: its stream starts again at the
+                      player's next wake-up
+      reset-play      reset() immediately followed by play() (also:
+                      play(reset=True)): the stream starts again NOW -
+                      whatever the player was doing (playing, paused, stopped,
+                      ended)
+      stop            the player ends (only followed by reset-play)
+
+    Pause / resume / reset need the wake-up times of the stream: sequential
+    timelines only (every stream element is an item).  Mute / unmute alone
+    work on any timeline.  None when an action coincides with a wake-up (the
+    order of the two is not decided; the generators avoid it).
+    probe: only the state ('playing' | 'paused' | 'stopped' | 'ended') of the
+    player at time `probe` (after all actions) is wanted."""
+    out = Controlled()
+    only_mute = all(a['do'] in ('mute', 'unmute') for a in actions)
+    if not tl.sequential and not only_mute:
+        raise ValueError('control histories other than mute need a '
+                         'sequential timeline')
+    if not tl.sequential:
+        muted_at = []
+        for t0, e in tl.items:
+            t = at + t0
+            m = False
+            for a in actions:
+                if a['at'] == t:
+                    return None
+                if a['at'] < t:
+                    m = a['do'] == 'mute'
+            out.plays.append((t, e, m))
+        for a in actions:
+            out.effect[a['do']] = out.effect.get(a['do'], 0) + 1
+        out.ended = at + tl.total
+        out.last = max([out.ended] + [a['at'] for a in actions])
+        out.state = 'ended' if probe is None or probe > out.ended \
+            else 'playing'
+        return out
+    els = [e for _, e in tl.items]
+    onsets = [t for t, _ in tl.items] + [tl.total]
+    deltas = [b - a for a, b in zip(onsets, onsets[1:])]
+    n = len(els)
+    state, idx, wake, muted = 'playing', 0, at, False
+    last = at
+    for a in list(actions) + [{'at': INF if probe is None else probe,
+                               'do': 'end'}]:
+        while state == 'playing' and wake < a['at']:
+            last = max(last, wake)
+            if idx == n:
+                state, out.ended = 'ended', wake
+                break
+            out.plays.append((wake, els[idx], muted))
+            wake += deltas[idx]
+            idx += 1
+        if a['do'] == 'end':
+            break
+        if state == 'playing' and wake == a['at']:
+            return None
+        last = max(last, a['at'])
+        do = a['do']
+        hit = False
+        if do == 'mute':
+            hit, muted = not muted, True
+        elif do == 'unmute':
+            hit, muted = muted, False
+        elif do == 'pause':
+            if state == 'playing':
+                state, hit = 'paused', True
+        elif do in ('resume', 'play'):
+            if state == 'paused':
+                state, wake, hit = 'playing', a['at'], True
+        elif do == 'reset':
+            if state != 'playing':
+                raise ValueError('reset alone: playing players only')
+            idx, hit = 0, True
+            out.runs += 1
+            out.ended = None
+        elif do in ('reset-play', 'play-reset'):
+            state, idx, wake, hit = 'playing', 0, a['at'], True
+            out.runs += 1
+            out.ended = None
+        elif do == 'stop':
+            if state in ('playing', 'paused'):
+                state, hit = 'stopped', True
+        else:
+            raise ValueError(do)
+        if hit:
+            out.effect[do] = out.effect.get(do, 0) + 1
+    out.last = last
+    out.state = state
+    return out
